@@ -151,6 +151,11 @@ func Apply(db []byte, wal []byte) ([]byte, *Result, error) {
 		return out, r, nil
 	}
 	ps := int64(r.PageSize)
+	// A database can only be as large as the pages present in the file plus the pages the WAL carries;
+	// a forged commit size beyond that is refused instead of allocating gigabytes.
+	if int64(r.Commit)*ps > int64(len(db))+int64(len(r.Frames))*ps+ps {
+		return nil, nil, errors.New("refwal: commit size exceeds db + wal pages")
+	}
 	out := make([]byte, int64(r.Commit)*ps)
 	copy(out, db)
 	for p, off := range r.Pages {
